@@ -36,6 +36,7 @@ func VerifyIndex(ctx context.Context, name string, idx Index, n int, pb Progress
 		defer f.Close()
 		g.Go(func() error {
 			for c := range in {
+				verifYield("verifyindex.batch")
 				// Reuse the fileSeedSegment structure, this is really just a seed segment after all
 				segment := newFileSeedSegment(name, c, false)
 				if err := segment.Validate(f); err != nil {
@@ -62,6 +63,7 @@ func VerifyIndex(ctx context.Context, name string, idx Index, n int, pb Progress
 	// Feed the workers, stop if there are any errors
 loop:
 	for i := 0; i < chunksNum; i = i + batch + 1 {
+		verifYield("verifyindex.feed")
 		last := i + batch
 		if last >= chunksNum {
 			// We reached the end of the array
